@@ -1897,3 +1897,74 @@ def relation_cases(cs, swap=False):
         c = flip[case] if swap else case
         out[case] = cs["true_tg"] if c in REL_TRUTH[cs["op"]] else cs["false_tg"]
     return out
+
+
+# =====================================================================================================
+# size_hint is a bound, not a count
+# =====================================================================================================
+HINT_SINK_OK = {"with_capacity", "reserve", "reserve_exact", "try_reserve", "try_reserve_exact", "with_capacity_and_hasher"}
+HINT_PASS = {"unwrap_or", "unwrap_or_default", "unwrap", "expect", "max", "min", "saturating_add", "saturating_sub", "saturating_mul", "checked_add", "checked_sub", "checked_mul",
+             "wrapping_add", "wrapping_sub", "into", "try_into", "from", "try_from", "clone", "next_power_of_two", "div_ceil"}
+
+
+def size_hint_counts(prog, file_rx=r".*"):
+    """values taken from `Iterator::size_hint` (a lower / upper BOUND) that end up stored in a field of a crate type or returned as a
+    count, instead of only sizing an allocation: list of (body, line, what).  Intra-procedural forward taint over locals."""
+    out = []
+    for b in prog.production():
+        if b.kind not in ("Fn", "AssocFn", "Closure") or not re.search(file_rx, b.file or ""):
+            continue
+        seeds = {t.dest.local for bi, t in b.calls() if t.callee.method == "size_hint" and t.dest is not None and t.dest.is_local()}
+        if not seeds:
+            continue
+        tainted = set(seeds)
+        changed = True
+        while changed:
+            changed = False
+            for pos, st in b.stmts():
+                if st.k != "assign" or st.place.local in tainted:
+                    continue
+                rv = st.rv
+                ops = []
+                if rv["k"] in ("use", "cast", "repeat"):
+                    ops = [rv["op"]]
+                elif rv["k"] == "bin":
+                    ops = [rv["l"], rv["r"]]
+                elif rv["k"] == "un":
+                    ops = [rv["o"]]
+                elif rv["k"] == "agg" and rv.get("agg") in ("tuple", "array"):
+                    ops = rv["ops"]
+                elif rv["k"] == "agg" and rv.get("variant") in ("Some", "Ok"):
+                    ops = rv["ops"]
+                if any(o.place is not None and o.place.local in tainted for o in ops) and st.place.is_local():
+                    tainted.add(st.place.local)
+                    changed = True
+            for bi, t in b.calls():
+                if t.dest is None or not t.dest.is_local() or t.dest.local in tainted or t.callee.method in HINT_SINK_OK:
+                    continue
+                if t.callee.method in HINT_PASS and any(a.place is not None and a.place.local in tainted for a in t.args):
+                    tainted.add(t.dest.local)
+                    changed = True
+        for pos, st in b.stmts():
+            if st.k != "assign":
+                continue
+            rv = st.rv
+            if rv["k"] == "agg" and rv.get("agg") == "adt" and rv.get("adt") in prog.adts:
+                for f, o in zip(rv.get("fields", []), rv["ops"]):
+                    if o.place is not None and o.place.local in tainted:
+                        out.append((b, st.line, "field `%s` of %s" % (f, rv["adt"].rsplit("::", 1)[-1])))
+            elif not st.place.is_local() and any(e != "*" and e[0] == "f" and e[2] in prog.adts for e in st.place.fields()):
+                ops = [rv.get("op")] if rv["k"] in ("use", "cast") else []
+                if any(o is not None and o.place is not None and o.place.local in tainted for o in ops):
+                    f = [e for e in st.place.fields() if e != "*" and e[0] == "f"][-1]
+                    out.append((b, st.line, "field `%s` of %s" % (f[1], f[2].rsplit("::", 1)[-1])))
+    return out
+
+
+def check_size_hint_counts(ck, rule, prog, file_rx):
+    fs = size_hint_counts(prog, file_rx)
+    n = len([1 for b in prog.production() if re.search(file_rx, b.file or "") for bi, t in b.calls() if t.callee.method == "size_hint"])
+    for b, line, what in fs:
+        ck.ob(rule, "size-hint/%s" % b.short, False, "%s stores a value taken from Iterator::size_hint in %s: size_hint is only a bound (0 for filter / flat_map / from_fn, the head's length for chain), not the number of items" % (b.short, what), where=b.where(line))
+    if not fs:
+        ck.ob(rule, "size-hint", True, "no value of Iterator::size_hint is stored as a count (%d size_hint call(s) in these files, used for allocation sizes only)" % n)
